@@ -60,7 +60,7 @@ def build_pipeline(rng, scratch, idx):
         elif k == 'delete_fields':
             steps.append(DF.delete_fields(['pad']))
         elif k == 'select':
-            steps.append(DF.select_fields(['i', 'm2', 'm3', 'm5', 'u1', 'u2']))
+            steps.append(DF.select_fields(['i', 'm2', 'm3', 'm5', 'u1', 'u2', 'opt']))
         elif k == 'unpivot':
             steps.append(DF.unpivot([{'name': 'u(\\d)', 'keys': {'which': '\\1'}}],
                                     [{'name': 'which', 'type': 'string'}], {'name': 'val', 'type': 'integer'}))
@@ -71,13 +71,15 @@ def build_pipeline(rng, scratch, idx):
     return steps, mult, desc
 
 
-def real_trace(n, steps):
+def real_trace(n, steps, shape='dense'):
     trace = []
 
     def source():
         for i in range(n):
             trace.append(['p', i])
-            yield {'i': i, 'm2': i % 2, 'm3': i % 3, 'm5': i % 5, 'u1': i, 'u2': -i, 'pad': 'x'}
+            opt = None if shape == 'all-null' else (None if (shape == 'late' and i < 150) else 'v')
+            yield {'i': i, 'm2': i % 2, 'm3': i % 3, 'm5': i % 5, 'u1': i, 'u2': -i, 'pad': 'x', 'opt': opt,
+                   'mixed': (i if i % 2 else str(i)) if shape == 'mixed' else 1}
 
     def sink(rows):
         for r in rows:
@@ -118,12 +120,14 @@ def run(ctx):
         for n in [rng.choice(sizes_small)] + (sizes_big if idx % 8 == 0 else [rng.choice([300, 1000])]):
             rng.setstate(state)
             steps, mult, desc = build_pipeline(rng, ctx.scratch, idx)
-            tr = real_trace(n, steps)
+            shape = ['dense', 'all-null', 'late', 'mixed'][idx % 4]
+            tr = real_trace(n, steps, shape)
             la = max_lookahead(tr)
             results[n] = la
-            case = {'pipeline': desc, 'n': n}
+            case = {'pipeline': desc, 'n': n, 'source_shape': shape}
             delivered = sum(1 for t in tr if t[0] == 'd')
-            rep.case('trace', case, key=[desc, n], nontrivial=delivered > 0)
+            rep.case('trace', case, key=[desc, n, shape], nontrivial=delivered > 0)
+            rep.hist('source_shape', shape)
             rep.hist('max_lookahead', la)
             rep.hist('n', n)
             if la > max(S - 1, 0):
@@ -146,7 +150,7 @@ def run(ctx):
             steps, mult, desc = build_pipeline(rng2, ctx.scratch, 10000 + idx)
             for n in (1500, 6000):
                 pass
-            tr1 = real_trace(1500, steps)
+            tr1 = real_trace(1500, steps, ['dense', 'all-null', 'late', 'mixed'][idx % 4])
             la = max_lookahead(tr1)
             if la > S - 1:
                 return {'signature': 'lookahead-exceeds-sample', 'case': {'pipeline': desc, 'n': 1500},
